@@ -27,6 +27,15 @@ class RemainingOperationsObserver(FeatureObserver):
             if FeatureType.MACHINES in self.features:
                 self.features[FeatureType.MACHINES][operation.machines, 0] += 1
 
+    def reset(self):
+        # The UnscheduledOperationsObserver this observer reads from may be
+        # subscribed after it, in which case the dispatcher has not reset it
+        # yet.
+        self.dispatcher.create_or_get_observer(
+            UnscheduledOperationsObserver
+        ).reset()
+        super().reset()
+
     def update(self, scheduled_operation: ScheduledOperation):
         if FeatureType.JOBS in self.features:
             job_id = scheduled_operation.job_id
